@@ -109,7 +109,7 @@ bool carrier_by_enumeration(vh::Case& c, const Setup& S, const Point& x, const f
     } while (std::next_permutation(perm.begin(), perm.end()));
   }
   c.count("cmp.locate.unique_carrier");
-  if (!c.expect(containing > 0, "oracle.selfcheck", "no_top_simplex_contains_point", "point " + show_point(x) + " lattice " + vh::str(xi.transpose()))) return false;
+  if (!C20_EXPECT(c, containing > 0, "oracle.selfcheck", "no_top_simplex_contains_point", "point " + show_point(x) + " lattice " + vh::str(xi.transpose()))) return false;
   return true;
 }
 
@@ -126,14 +126,14 @@ bool query(vh::Case& c, const Setup& S, const Point& x, const std::string& pcls,
   c.count("obs.locate_point");
   c.count("obs.locate_point." + pcls);
   c.log("  -> " + show(R));
-  if (!c.expect(wellformed(R, S.d), "locate.rep_wellformed", sig, show(R) + " is not an ordered partition of 0..d with d in the last part")) return false;
+  if (!C20_EXPECT(c, wellformed(R, S.d), "locate.rep_wellformed", sig, show(R) + " is not an ordered partition of 0..d with d in the last part")) return false;
   fk::Simplex V;
   if (!vertex_checks(c, R, S.d, "from_locate", V, nullptr)) return false;
   Vec lam;
   double res = barycentric(S, V, x, lam);
   double xn = 1.0; for (double t : x) xn = std::max(xn, std::fabs(t));
-  if (!c.expect(res <= 1e-7 * xn, "locate.contains", sig + ",off_affine_hull", "point " + show_point(x) + " is at " + vh::str(res) + " from the affine hull of returned " + fk::show(V))) return false;
-  if (!c.expect(lam.minCoeff() >= -kTolWeight, "locate.contains", sig + ",negative_weight", "point " + show_point(x) + " has weights " + vh::str(lam.transpose()) + " on returned " + fk::show(V))) return false;
+  if (!C20_EXPECT(c, res <= 1e-7 * xn, "locate.contains", sig + ",off_affine_hull", "point " + show_point(x) + " is at " + vh::str(res) + " from the affine hull of returned " + fk::show(V))) return false;
+  if (!C20_EXPECT(c, lam.minCoeff() >= -kTolWeight, "locate.contains", sig + ",negative_weight", "point " + show_point(x) + " has weights " + vh::str(lam.transpose()) + " on returned " + fk::show(V))) return false;
   // minimality: the library merges fractional parts closer than its documented tolerance 1e-9, so that every vertex it keeps
   // carries a weight above 1e-9; a returned vertex whose weight is below 1e-10 means the returned simplex is not the one whose relative
   // interior contains the point within that tolerance.  Reported once per (case, signature); the case goes on.
@@ -155,14 +155,14 @@ bool query(vh::Case& c, const Setup& S, const Point& x, const std::string& pcls,
   }
   if (!carrier_by_enumeration(c, S, x, V, sig, enum_budget)) return false;
   if (e.keeps) {
-    if (!c.expect(fk::subset(*e.keeps, V), "locate.keeps_weighted_vertices", sig, "point " + show_point(x) + " built with non-negligible weight on every vertex of " + fk::show(*e.keeps) + " but returned " + fk::show(V))) return false;
+    if (!C20_EXPECT(c, fk::subset(*e.keeps, V), "locate.keeps_weighted_vertices", sig, "point " + show_point(x) + " built with non-negligible weight on every vertex of " + fk::show(*e.keeps) + " but returned " + fk::show(V))) return false;
   }
   if (e.exactly && !nonminimal) {
     std::string how = V == *e.exactly ? "" : fk::subset(*e.exactly, V) ? ",returned_proper_coface" : fk::subset(V, *e.exactly) ? ",returned_proper_face" : ",returned_other";
-    if (!c.expect(V == *e.exactly, "locate.exact_simplex", sig + how, "exact set-up: point " + show_point(x) + " lies in the relative interior of " + fk::show(*e.exactly) + " but returned " + fk::show(V))) return false;
+    if (!C20_EXPECT(c, V == *e.exactly, "locate.exact_simplex", sig + how, "exact set-up: point " + show_point(x) + " lies in the relative interior of " + fk::show(*e.exactly) + " but returned " + fk::show(V))) return false;
   }
   if (e.within && !nonminimal) {
-    if (!c.expect(fk::subset(V, *e.within), "locate.within_carrier", sig, "exact set-up: point " + show_point(x) + " has exact carrier " + fk::show(*e.within) + " but returned " + fk::show(V))) return false;
+    if (!C20_EXPECT(c, fk::subset(V, *e.within), "locate.within_carrier", sig, "exact set-up: point " + show_point(x) + " has exact carrier " + fk::show(*e.within) + " but returned " + fk::show(V))) return false;
   }
   if (out) *out = R;
   if (Vout) *Vout = V;
@@ -222,12 +222,12 @@ void run_queries(vh::Case& c, Setup& S) {
   vh::Rng& r = c.rng;
   const std::size_t d = S.d;
   S.lu = Eigen::FullPivLU<Mat>(S.M);
-  const std::size_t budget = c.thorough ? 6000 : 1500;
+  const std::size_t budget = c.thorough ? 4000 : 800;
   const int span = S.exact ? 15 : 12;
   bool nontrivial = false;
 
   // accessors
-  if (!c.expect(S.tr->dimension() == d && S.tr->matrix() == S.M && S.tr->offset() == S.off, "accessors.match", S.cls, "dimension()/matrix()/offset() differ from what was set")) return;
+  if (!C20_EXPECT(c, S.tr->dimension() == d && S.tr->matrix() == S.M && S.tr->offset() == S.off, "accessors.match", S.cls, "dimension()/matrix()/offset() differ from what was set")) return;
 
   // lattice vertices: cartesian_coordinates against the own affine map; the vertex itself is located
   for (int t = 0; t < 2; ++t) {
@@ -237,7 +237,7 @@ void run_queries(vh::Case& c, Setup& S) {
     Vec theirs = S.tr->cartesian_coordinates(v, S.scale);
     c.count("obs.cartesian_coordinates");
     double tol = S.exact ? 0.0 : 1e-12 * (1.0 + mine.cwiseAbs().maxCoeff());
-    if (!c.expect(theirs.size() == (long)d && (theirs - mine).cwiseAbs().maxCoeff() <= tol, "cartesian.matches_affine_map", S.cls, "vertex " + fk::show(v) + " scale " + vh::str(S.scale) + ": " + vh::str(theirs.transpose()) + " vs " + vh::str(mine.transpose()))) return;
+    if (!C20_EXPECT(c, theirs.size() == (long)d && (theirs - mine).cwiseAbs().maxCoeff() <= tol, "cartesian.matches_affine_map", S.cls, "vertex " + fk::show(v) + " scale " + vh::str(S.scale) + ": " + vh::str(theirs.transpose()) + " vs " + vh::str(mine.transpose()))) return;
     fk::Simplex F{v};
     Expectation e; e.keeps = &F; if (S.exact) e.exactly = &F;
     if (!query(c, S, to_point(theirs), "lattice_vertex", e, budget, nullptr, nullptr)) return;
@@ -276,7 +276,7 @@ void run_queries(vh::Case& c, Setup& S) {
       Vec mean = Vec::Zero(d);
       for (auto& v : F) mean += own_cart(S, v);
       mean /= (double)n;
-      if (!c.expect(bc.size() == (long)d && (bc - mean).cwiseAbs().maxCoeff() <= 1e-12 * (1.0 + mean.cwiseAbs().maxCoeff()), "barycenter.matches_mean", S.cls, "face " + show(f) + ": " + vh::str(bc.transpose()) + " vs " + vh::str(mean.transpose()))) return;
+      if (!C20_EXPECT(c, bc.size() == (long)d && (bc - mean).cwiseAbs().maxCoeff() <= 1e-12 * (1.0 + mean.cwiseAbs().maxCoeff()), "barycenter.matches_mean", S.cls, "face " + show(f) + ": " + vh::str(bc.transpose()) + " vs " + vh::str(mean.transpose()))) return;
       {
         Expectation e; e.keeps = &F;
         if (!query(c, S, to_point(bc), "face_barycenter", e, budget, nullptr, nullptr)) return;
@@ -378,7 +378,7 @@ void coxeter_case(vh::Case& c) {
   S.cls = "coxeter";
   c.log("Coxeter_triangulation(d=" + vh::str(S.d) + ") offset=" + vh::str(S.off.transpose()) + " scale=" + vh::str(S.scale));
   // the root matrix must be invertible and finite for the map to be an affine image of the Freudenthal-Kuhn triangulation
-  if (!c.expect(S.M.rows() == (long)S.d && S.M.cols() == (long)S.d && S.M.allFinite() && std::fabs(S.M.determinant()) > 1e-6, "coxeter.matrix_invertible", "coxeter", "root matrix not finite/invertible")) return;
+  if (!C20_EXPECT(c, S.M.rows() == (long)S.d && S.M.cols() == (long)S.d && S.M.allFinite() && std::fabs(S.M.determinant()) > 1e-6, "coxeter.matrix_invertible", "coxeter", "root matrix not finite/invertible")) return;
   S.tr = &tr;
   c.count(std::string("setup.coxeter.") + (moved ? "offset" : "origin"));
   run_queries(c, S);
